@@ -404,9 +404,11 @@ func (b *Backend) Exec(op Op) (obs Obs, ok bool) {
 			// is reported only if it persists over three attempts with deadlines d, 4d, 16d. The call
 			// changes nothing, so repeating it is harmless; the last attempt is the observation.
 			var err error
+			var dl time.Time
 			for attempt := 0; attempt < 3; attempt++ {
 				obs.T0 = b.now()
 				c2, cancel := context.WithTimeout(ctx, d)
+				dl, _ = c2.Deadline()
 				err = b.S.WaitForVersionChange(c2, op.Key, ver)
 				cancel()
 				if Class(err) != "OCtx" || d >= 100*time.Millisecond {
@@ -416,6 +418,12 @@ func (b *Backend) Exec(op Op) (obs Obs, ok bool) {
 			}
 			obs.T1 = b.now()
 			out = Class(err)
+			if out == "OCtx" {
+				// the context's error is justified by the record still being there, unchanged, when the
+				// context ended (the return may be noticed much later on a busy machine)
+				obs.T0 = int64(dl.Sub(b.T0) + b.FF)
+				obs.T1 = obs.T0
+			}
 		})
 	default:
 		panic("bad op " + op.K)
